@@ -27,7 +27,7 @@ def _prims(thorough: bool) -> typing.List[typing.Tuple[str, str, bool]]:
     """(tag, dsdl type expr, core)"""
     out = []
     widths = range(1, 65) if thorough else QUICK_WIDTHS
-    corew = {1, 7, 8, 9, 15, 16, 17, 31, 32, 33, 63, 64}  # every width adjacent to a storage-type boundary
+    corew = {1, 7, 8, 9, 15, 16, 17, 24, 31, 32, 33, 48, 63, 64}  # every width adjacent to a storage-type boundary
     for n in widths:
         c = n in corew
         out.append((f"us{n}", f"saturated uint{n}", c))
@@ -54,6 +54,11 @@ def universe(thorough: bool) -> typing.List[TypeDef]:
                     continue
                 pre = "" if k == 0 else (f"void{k}\n" if kind == "v" else f"truncated uint{k} p\n")
                 out.append(TypeDef(f"L1{tag}k{k}{kind}", "L1", f"{pre}{expr} x\ntruncated uint3 tail\n@sealed\n", core))
+    # ---- L1e: the primitive is the LAST item of the type (a store wider than the field then leaves the buffer)
+    for tag, expr, c in _prims(thorough):
+        out.append(TypeDef(f"L1e{tag}a", "L1", f"uint8 h\n{expr} x\n@sealed\n", c))
+        if thorough or c:
+            out.append(TypeDef(f"L1e{tag}u", "L1", f"truncated uint3 p\n{expr} x\n@sealed\n", False))
     # ---- L2 arrays
     elems = [("b", "bool"), ("u8", "uint8"), ("by", "byte"), ("ch", "utf8"), ("u16", "uint16"), ("ut5", "truncated uint5"), ("i13", "int13"), ("f16", "float16"), ("f32", "float32"), ("i64", "int64")]
     kinds = [("f1", "[1]"), ("f3", "[3]"), ("f9", "[9]"), ("v1", "[<=1]"), ("v3", "[<=3]"), ("v9", "[<=9]")]
